@@ -177,8 +177,14 @@ class Rational(Primitive):
                 result = impl(self._value, right._value)
             except ZeroDivisionError:
                 raise _any.InvalidOperandError("Cannot divide %s by zero" % self._value) from None
-            else:
-                return Rational(result)
+            except (OverflowError, ValueError) as ex:
+                # E.g., raising a huge number to a non-integer power goes through float arithmetic internally.
+                raise _any.InvalidOperandError("The result is not representable: %s" % ex) from None
+            if isinstance(result, complex):  # E.g., a non-integer power of a negative number.
+                raise _any.InvalidOperandError("The result is not a real number")
+            if isinstance(result, float) and not (-float("inf") < result < float("inf")):
+                raise _any.InvalidOperandError("The result is not a finite number")
+            return Rational(result)
         else:
             raise _any.UndefinedOperatorError
 
